@@ -215,7 +215,8 @@ def gen_stmts(rng, depth, budget, slots, weights=None, amo_p=0.35, large_p=0.3):
             slots.append(s)
             out.append({"op": "cbnew", "slot": s})
             if rng.random() < 0.5:
-                out.append({"op": "log", "msg": f"between-{s}"})
+                budget.append(0)
+                out.append({"op": "log", "msg": f"between-{s}-L{len(budget)}"})
         elif op == "cbres":
             out.append({"op": "cbres", "slot": rng.choice(slots), "catch": rng.random() < 0.6})
         elif op == "invoke":
@@ -230,7 +231,8 @@ def gen_stmts(rng, depth, budget, slots, weights=None, amo_p=0.35, large_p=0.3):
                 body.append({"op": "pad", "n": 260})
             out.append({"op": "child", "body": body, "limit": 200, "summary": rng.choice(["", "SUMMARY"]), "catch": rng.random() < 0.6})
         else:
-            out.append({"op": "log", "msg": f"m{rng.randrange(100)}"})
+            budget.append(0)
+            out.append({"op": "log", "msg": f"L{len(budget)}"})
     if rng.random() < 0.08:
         out.append({"op": "raise", "cls": "UserError", "msg": "final"})
     return out
@@ -328,6 +330,7 @@ def run_execution(script, seed, crash_p=0.25, fault_p=0.1, max_inv=40, limits=No
         inv = {"plan": recorded_plans[-1], "end": e, "trace": canon_real_trace(res["trace"], idmap), "raw_trace": res["trace"],
                "logs": res["logs"], "start_tbl": start_tbl, "tbl": canon_real_table(backend), "rejections": list(backend.rejections),
                "hung": res["hung"], "limit": res["limit"], "leftover_threads": res["leftover_threads"],
+               "out_raw": res.get("out"), "exec_result": backend.exec_result,
                "enabled_after": [(kind, backend.ops[i].pos()) for kind, i in backend.enabled_events()],
                "calls": [(t, [(u["name"], u["action"]) for u in us], o) for t, us, o in backend.calls]}
         invs.append(inv)
@@ -413,7 +416,7 @@ def compare(ctx, ex, component):
         # logs: the emitted messages
         ilog = [m for m, _ in inv["logs"]]
         mlog = [ev[2] for ev in mo["trace"] if ev[0] == "log" and ev[3]]
-        if ilog != mlog and inv["plan"].get("page_size") in (None, 0):
+        if ilog != mlog:
             ctx.disagree(component, case, {"inv": k, "logs": ilog}, {"inv": k, "logs": mlog}, f"invocation {k}: emitted log records differ")
             return a
         itbl = inv["tbl"]
